@@ -10,7 +10,66 @@ FE = 'fault_enumeration'
 EX = 'exploration'
 
 # id: (category, technique, level text, level note, design ref)
+TREE = ("BFS over block-tree arrival histories of the real CoinState (every stored block as parent x payload menu), "
+        "de-duplicated on (stored set, head); ")
 CHECKS = {
+    'C01': (MC, "explicit-state search over block-tree histories; every adversarial candidate block offered on every stored "
+                "parent of every state; lock-step reference validator + deep state fingerprint",
+            TREE + "in every state every stored block is offered ~45 candidate blocks each breaking exactly one spend rule "
+            "(plus valid controls), including candidates signed over whatever the implementation itself treats as the signed "
+            "message. accept => reference-valid; any raise => deep fingerprint of the prior state unchanged; accepted controls "
+            "must produce the reference unspent set. Exhaustive within depth 3 (quick) / 4 (thorough) on a harness-rooted "
+            "easy-target chain and depth 1/2 on the real genesis.",
+            "Trusts the reference validator (vf/refmodel.py, bound to real data by C18), ecdsa, and the seams: scrypt stand-in, "
+            "checkpoint horizon lowered, ecdsa verification memoised. Signature forgery is outside any enumeration.",
+            "DESIGN.md section 4, C01"),
+    'C02': (MC, "same explicit-state search; value / reward alphabet; conservation invariant on every stored block",
+            TREE + "candidates: reward = bound, +1, -1, split, absent fees, wrap-around values, out-of-range and overspending "
+            "outputs, every malformed shape of the reward transaction. accept => reference-valid; unspent total at every stored "
+            "block <= parent's + subsidy and <= cumulative schedule, from the implementation's own unspent sets.",
+            "Reference subsidy formula is the check's own; halving heights are out of reach (composition with C16).",
+            "DESIGN.md section 4, C02"),
+    'C03': (MC, "explicit-state search over block trees x arrival orders, both add paths; reference replay-from-genesis in "
+                "lock-step; order differential; snapshot fingerprints",
+            TREE + "every kept history is driven through add_block and add_block_no_validation; at every stored block the "
+            "unspent set and per-key balances (value and exact reference list) are compared with a replay of that block's own "
+            "ancestors; a second arrival order of the same set must give the same per-block views; every intermediate snapshot "
+            "is re-fingerprinted after later adds.",
+            "De-duplication on (stored set, head) assumes the state is a function of those; that is exactly what the per-block "
+            "comparison and the order differential test for the kept representatives.", "DESIGN.md section 4, C03"),
+    'C04': (MC, "exhaustive enumeration of all n! parent-choice sequences; reference fork choice in lock-step",
+            "All sequences in which each new block picks any earlier block as parent (n = 8 quick, 10 thorough; no "
+            "de-duplication), through add_block and add_block_no_validation; after every arrival head, tip set, by-height "
+            "index of every stored block and forks() equal the reference (first-seen block of greatest height).",
+            "Total work is height in this version; sibling ids fall on both sides of the incumbent's (counted in evidence) so a "
+            "tie-break by id cannot hide.", "DESIGN.md section 4, C04"),
+    'C05': (MC, "explicit-state search over trees crossing retarget boundaries; single-rule-broken header candidates on every "
+                "stored parent; own-assembly acceptance; exhaustive retarget arithmetic grid",
+            TREE + "retarget period rebound to 4 so boundaries fall on both sides of forks; ~40 header candidates per parent "
+            "(PoW, wrong/stale/off-by-one targets, heights, reward height, time rules at the exact thresholds, every evidence "
+            "field, evidence of other parent/nonce/tx list), each re-mined so only the intended rule is broken; the node's own "
+            "construct_block_for_mining output must be accepted at 5 clock offsets in every state; 9,192-case grid of "
+            "calculate_new_target with the real constants; thorough adds a 10,080-block chain forked across the real boundary.",
+            "Targets are enumerated at every power-of-two boundary, not all 2^256 values.", "DESIGN.md section 4, C05"),
+    'C07': (EX, "exhaustive enumeration of decoder inputs: all short VLQ strings, every byte x position substitution of sample "
+                "encodings, prefix insertion, trailing data; value-grid round trips",
+            "Every byte string of length <= 2 (3 thorough) to the VLQ decoder; for ~30 (50) canonical encodings of all consensus "
+            "types every position x every byte value, 1..8 redundant continuation bytes before every VLQ field, trailing data: "
+            "whatever decodes must re-encode to the consumed bytes and carry id = sha256d(canonical encoding); 1,060 grid values "
+            "of all consensus and wire types round-trip field by field; ids of objects read back from a BlockStore.",
+            "The space of byte strings is unbounded; what is complete is the stated mutation families.", "DESIGN.md section 4, C07"),
+    'C17': (EX, "exhaustive enumeration of all lists over a small alphabet and all single edits / proof positions per length",
+            "All lists over 3 (4) ids up to length 8 (9): commitments pairwise distinct (covers every substitution, reordering, "
+            "removal, append, duplication incl. duplicate-last); for every length up to 33 (130) every single edit changes the "
+            "commitment and the proof at every position reproduces it and contains the entry; the same edits on real blocks' "
+            "transaction lists with the header kept are refused.",
+            "Leaves are independent hashes; a leaf equal to an inner node needs a preimage.", "DESIGN.md section 4, C17"),
+    'C18': (EX, "exhaustive enumeration of all 327 checkpoints x id variants x both entry points; recorded blocks re-validated "
+                "with real scrypt",
+            "Every checkpoint height with wrong id / right id / neighbouring checkpoint's id through validate_block_in_coinstate "
+            "and CoinState.add_block; horizon-1/0/+1; table pinned by digest; genesis + 5 recorded blocks keep id and bytes and "
+            "pass full validation with the real scrypt (horizon lowered), and the check's reference validator agrees on them.",
+            "Only six recorded real blocks exist offline.", "DESIGN.md section 4, C18"),
     'C16': (EX, "exhaustive enumeration of the whole input domain (every height) against a closed-form reference",
             "Complete enumeration: get_block_subsidy is evaluated at every one of the 33.6 million heights up to one "
             "full era past exhaustion and at every era boundary up to 2^32-1 and beyond, compared with the closed-form "
